@@ -199,7 +199,9 @@ theorem recreate_empty (p : Policy) (skip : List String) (t : T) (k : Nat) (h : 
     simp only [isEmptyNode, List.isEmpty_iff] at h
     subst h
     simp only [recreate, recreateK]
-    split <;> simp [isEmptyNode]
+    split
+    · split <;> simp [isEmptyNode]
+    · simp [isEmptyNode]
 
 theorem validate_empty (p : Policy) (cs : Sites) (t : T) (k : Nat) (h : isEmptyNode t = true) :
     (validate p cs t k).writes = [] := by
@@ -257,7 +259,9 @@ theorem copyIf_kind (p : Policy) (skip : List String) (b : Bool) (t : T) (k : Na
   | node kd i kids =>
     simp only [copyIf, recreate]
     split
-    · split <;> rfl
+    · split
+      · split <;> rfl
+      · rfl
     · rfl
 
 theorem stripUnknown_spec (p : Policy) (cs : Sites) (ok : Nat → Prop) (hns : p.inplace .ns = true) (known : List String) (t : T) (k : Nat)
@@ -341,7 +345,11 @@ theorem parseObject_spec (p : Policy) (cs : Sites) (ok : Nat → Prop) (hns : p.
     ∀ w ∈ (parseObject p cs ds base obj k).writes, ok w := by
   have hd1 := poDefaults_spec p cs ok hns hcd hcb hcf ds base k hds hbase hf
   simp only [parseObject]
-  generalize poDefaults p cs ds base k = d1 at hd1 ⊢
+  generalize poDefaults p cs ds base k = d0 at hd1 ⊢
+  have hda := mutT_spec p .adapt ok d0.val d0.next hd1.2.1 (hf.mono hd1.2.2)
+  have hd0w := hd1.1
+  replace hd1 : Spec p ok k (adaptMut p d0.val d0.next) := ⟨hda.1, hda.2.1, Nat.le_trans hd1.2.2 hda.2.2⟩
+  generalize adaptMut p d0.val d0.next = d1 at hd1 ⊢
   have ho := copyIf_clone_spec p [] ok cs.parseObject obj d1.next (Or.inl ⟨hco, hobj⟩) (hf.mono hd1.2.2)
   generalize copyIf cs.parseObject (recreate p []) obj d1.next = o at ho ⊢
   have hk0 : k ≤ o.next := Nat.le_trans hd1.2.2 ho.2
@@ -357,7 +365,8 @@ theorem parseObject_spec (p : Policy) (cs : Sites) (ok : Nat → Prop) (hns : p.
     (Or.inr hmg.2.1) (hf.mono (Nat.le_trans hk2 hmg.2.2))
   intro w hw
   simp only [List.mem_append] at hw
-  rcases hw with ((hw | hw) | hw) | hw
+  rcases hw with (((hw | hw) | hw) | hw) | hw
+  · exact hd0w w hw
   · exact hd1.1 w hw
   · exact ha.1 w hw
   · exact hmg.1 w hw
